@@ -18,7 +18,7 @@ def sh(cmd, **kw):
 demo = next(f for f in ("demo.py", "demo_test.py") if os.path.exists(os.path.join(mut, f)))
 ran = []
 # the patch file must be what is applied in the worktree
-sh(f"git -C {wt} stash -q")
+sh(f"git -C {wt} checkout -- . && git -C {wt} clean -fdq jade")      # patch.diff is the deliverable; no stash (shared across worktrees)
 head = sh("git -C /repo rev-parse HEAD").stdout.strip()
 sh(f"git -C {wt} checkout -q --detach {head}")      # the worktree may predate later fix: commits in /repo
 r = sh(f"git -C {wt} apply --check {mut}/patch.diff")
@@ -26,7 +26,6 @@ assert r.returncode == 0, "patch does not apply to the clean tree: " + r.stdout
 r0 = sh(f"cd {mut} && timeout 300 /venv/bin/python {mut}/{demo}")
 ran.append(f"demo on unchanged tree: exit {r0.returncode}")
 sh(f"git -C {wt} apply {mut}/patch.diff")
-sh(f"git -C {wt} stash drop -q")
 r1 = sh(f"cd {mut} && timeout 300 /venv/bin/python {mut}/{demo}")
 ran.append(f"demo with change: exit {r1.returncode}")
 junit = f"/tmp/junit_{sid}.xml"
